@@ -1156,11 +1156,11 @@ public:
             memmove( this_view.data(), this_view.data()+q, size_type((this_view.size() - q)*sizeof(word_type)) );
             resize( size_type(this_view.size() - q) );
             k %= word_type_bits;
-            if ( k == 0 )
-            {
-                reduce();
-                return *this;
-            }
+        }
+        if ( k == 0 ) // nothing left to shift (also avoids a shift by word_type_bits below)
+        {
+            reduce();
+            return *this;
         }
 
         this_view = get_storage_view();
